@@ -121,7 +121,7 @@ def main():
         if os.path.abspath(src) != dst:
             os.makedirs(dst, exist_ok=True)
             for f in os.listdir(src):
-                if os.path.isfile(os.path.join(src, f)):
+                if os.path.isfile(os.path.join(src, f)) and not f.startswith("."):
                     shutil.copy(os.path.join(src, f), dst)
         meta_out = dict(meta)
         meta_out.setdefault("property", pid)
